@@ -4,6 +4,7 @@ use crate::explore::{Findings, OpId, Profile, enabled, replay};
 use crate::oracle::{self, StepRec, Viol};
 use crate::pool::*;
 use crate::shim;
+use lean_string::LeanString;
 use std::collections::BTreeMap;
 use std::sync::Mutex;
 use std::sync::atomic::{AtomicU64, Ordering};
@@ -41,6 +42,9 @@ pub struct ProbeCtx<'a> {
 }
 
 impl ProbeCtx<'_> {
+    fn trace(&self, hist: &[OpId], case: &str) {
+        crate::trace(|| serde_json::json!({"profile": self.prof.name, "history": self.prof.render(hist), "case": case}).to_string());
+    }
     fn report(&self, hist: &[OpId], viols: &[Viol], op_kind: &str, tkind: &str, extra: &str) {
         for v in viols {
             self.findings.add(self.prof, hist, v, op_kind, tkind, extra);
@@ -270,6 +274,7 @@ fn fault_case(cx: &ProbeCtx, hist: &[OpId], chain: &[Faulted], cfg: &FaultCfg, d
     let prof = cx.prof;
     let last = chain.last().unwrap();
     let extra = format!("{chain:?}");
+    cx.trace(hist, &extra);
     let mut viols = Vec::new();
     let (mut p, class, rec) = run_chain(prof, hist, chain, &mut viols);
     let rec = rec.unwrap();
@@ -278,10 +283,12 @@ fn fault_case(cx: &ProbeCtx, hist: &[OpId], chain: &[Faulted], cfg: &FaultCfg, d
     let tk = oracle::target_kind(&rec);
     cx.stats.class(format!("{}/{}/{:?}/{:?}", last.op.kind_name(), tk, last.form, class));
     cx.stats.sample(|| format!("{:?} then {extra} -> {class:?}", prof.render(hist)));
-    let fu = if class != FaultClass::NotReached && cfg.followups && depth == 0 { followup_ops(prof, &p) } else { vec![] };
+    // a state that already violated the property is not explored further (its heap may be corrupt)
+    let sane = viols.is_empty();
+    let fu = if sane && class != FaultClass::NotReached && cfg.followups && depth == 0 { followup_ops(prof, &p) } else { vec![] };
     close_check(&mut p, &format!("{extra}, then all handles dropped"), &mut viols, "C05");
     cx.report(hist, &viols, last.op.kind_name(), tk, &extra);
-    if class == FaultClass::NotReached {
+    if class == FaultClass::NotReached || !sane {
         return;
     }
     // a second refusal inside the same call (only reachable when the first one was absorbed)
@@ -298,6 +305,7 @@ fn fault_case(cx: &ProbeCtx, hist: &[OpId], chain: &[Faulted], cfg: &FaultCfg, d
         // the follow-up operation must behave like the model and leave a clean heap
         let mut v2 = Vec::new();
         let mut scratch = Vec::new();
+        cx.trace(hist, &format!("{extra} then {op2:?}"));
         let (mut p, _, _) = run_chain(prof, hist, chain, &mut scratch);
         let rec2 = oracle::step(&mut p, op2, Form::Plain);
         cx.stats.executions.fetch_add(1, Ordering::Relaxed);
@@ -328,4 +336,733 @@ pub fn replay_case(cx: &ProbeCtx, hist: &[OpId], sig: &str, _extra: &str) {
     if sig.starts_with("C05/") {
         fault_probe(cx, hist, &FaultCfg { followups: true, pairs: true });
     }
+}
+
+// -------------------------------------------------------------------------------------
+// shared helpers
+
+fn pool_key(p: &Pool) -> u128 {
+    hash128(&canonical_key(p))
+}
+
+fn others_unchanged(pre: &[Option<SlotObs>], p: &Pool, target: Option<usize>, prop: &'static str, what: &str, out: &mut Vec<Viol>) {
+    for i in 0..p.k {
+        if Some(i) == target {
+            continue;
+        }
+        let post = p.h(i).map(observe);
+        match (&pre[i], &post) {
+            (None, None) => {}
+            (Some(a), Some(b)) => {
+                if a.text != b.text || a.len != b.len || a.ptr != b.ptr || a.cap != b.cap || a.raw != b.raw {
+                    out.push(Viol { prop, oracle: "other-changed", detail: format!("{what}: slot {i} changed from {:?} (cap {}) to {:?} (cap {})", String::from_utf8_lossy(&a.text), a.cap, String::from_utf8_lossy(&b.text), b.cap) });
+                }
+            }
+            _ => out.push(Viol { prop, oracle: "other-changed", detail: format!("{what}: slot {i} appeared/disappeared") }),
+        }
+    }
+    if !texts(|t| t.statics_intact()) {
+        out.push(Viol { prop, oracle: "static-bytes", detail: format!("{what}: the bytes of a 'static text were modified") });
+    }
+}
+
+fn heap_checks(p: &Pool, prop: &'static str, what: &str, out: &mut Vec<Viol>) {
+    let mut c = Vec::new();
+    oracle::heap_accounting(p, what, &mut c);
+    let (errs, audit) = shim::with(|s| (s.errors.clone(), s.audit()));
+    for e in c {
+        out.push(Viol { prop, oracle: heap_oracle(e.oracle), detail: e.detail });
+    }
+    if let Some(e) = errs.first().or(audit.first()) {
+        out.push(Viol { prop, oracle: "heap-damage", detail: format!("{what}: {e}") });
+    }
+}
+
+fn kind_str(o: Option<&SlotObs>) -> &'static str {
+    match o {
+        None => "none",
+        Some(o) => match o.kind {
+            Kind::Inline => "inline",
+            Kind::Static => "static",
+            Kind::Heap if o.rc == 1 => "heap-unique",
+            Kind::Heap => "heap-shared",
+        },
+    }
+}
+
+// -------------------------------------------------------------------------------------
+// C18: panicking callbacks
+
+#[derive(Clone, Copy, Debug, PartialEq, Eq)]
+pub enum Hint {
+    Honest,
+    Zero,
+}
+
+pub struct PanicIter<I> {
+    it: I,
+    calls: usize,
+    at: usize,
+    hint: Hint,
+}
+impl<I: Iterator> Iterator for PanicIter<I> {
+    type Item = I::Item;
+    fn next(&mut self) -> Option<I::Item> {
+        self.calls += 1;
+        if self.calls == self.at {
+            panic!("iterator panics");
+        }
+        self.it.next()
+    }
+    fn size_hint(&self) -> (usize, Option<usize>) {
+        match self.hint {
+            Hint::Honest => self.it.size_hint(),
+            Hint::Zero => (0, None),
+        }
+    }
+}
+
+fn pi<I: Iterator>(it: I, at: usize, hint: Hint) -> PanicIter<I> {
+    PanicIter { it, calls: 0, at, hint }
+}
+
+const STR_ITEMS: [&str; 4] = ["0123456", "é€", "89abcdefgh", "😀"];
+const CHAR_ITEMS: &str = "abcdefé€0123456789😀xyz";
+
+#[derive(Clone, Copy, Debug, PartialEq, Eq)]
+pub enum ItemKind {
+    Char,
+    CharRef,
+    Str,
+    StringT,
+    BoxStr,
+    CowStr,
+    Lean,
+}
+const ITEM_KINDS: [ItemKind; 7] = [ItemKind::Char, ItemKind::CharRef, ItemKind::Str, ItemKind::StringT, ItemKind::BoxStr, ItemKind::CowStr, ItemKind::Lean];
+
+fn n_items(k: ItemKind) -> usize {
+    match k {
+        ItemKind::Char | ItemKind::CharRef => CHAR_ITEMS.chars().count(),
+        _ => STR_ITEMS.len(),
+    }
+}
+
+fn lean_extend(h: &mut LeanString, k: ItemKind, at: usize, hint: Hint) {
+    let chars: Vec<char> = CHAR_ITEMS.chars().collect();
+    match k {
+        ItemKind::Char => h.extend(pi(chars.into_iter(), at, hint)),
+        ItemKind::CharRef => h.extend(pi(chars.iter(), at, hint)),
+        ItemKind::Str => h.extend(pi(STR_ITEMS.into_iter(), at, hint)),
+        ItemKind::StringT => h.extend(pi(STR_ITEMS.into_iter().map(String::from), at, hint)),
+        ItemKind::BoxStr => h.extend(pi(STR_ITEMS.into_iter().map(Box::<str>::from), at, hint)),
+        ItemKind::CowStr => h.extend(pi(STR_ITEMS.into_iter().map(std::borrow::Cow::Borrowed), at, hint)),
+        ItemKind::Lean => h.extend(pi(STR_ITEMS.into_iter().map(LeanString::from), at, hint)),
+    }
+}
+fn model_extend(m: &mut String, k: ItemKind, at: usize, hint: Hint) {
+    let chars: Vec<char> = CHAR_ITEMS.chars().collect();
+    match k {
+        ItemKind::Char => m.extend(pi(chars.into_iter(), at, hint)),
+        ItemKind::CharRef => m.extend(pi(chars.iter(), at, hint)),
+        ItemKind::Str => m.extend(pi(STR_ITEMS.into_iter(), at, hint)),
+        ItemKind::StringT => m.extend(pi(STR_ITEMS.into_iter().map(String::from), at, hint)),
+        ItemKind::BoxStr => m.extend(pi(STR_ITEMS.into_iter().map(Box::<str>::from), at, hint)),
+        ItemKind::CowStr => m.extend(pi(STR_ITEMS.into_iter().map(std::borrow::Cow::Borrowed), at, hint)),
+        // std has no Extend<String-like foreign type>; the crate provides Extend<LeanString> for String,
+        // but the reference here must be std only: feed the same texts as &str
+        ItemKind::Lean => m.extend(pi(STR_ITEMS.into_iter(), at, hint)),
+    }
+}
+fn lean_collect(k: ItemKind, at: usize, hint: Hint) -> LeanString {
+    let chars: Vec<char> = CHAR_ITEMS.chars().collect();
+    match k {
+        ItemKind::Char => pi(chars.into_iter(), at, hint).collect(),
+        ItemKind::CharRef => pi(chars.iter(), at, hint).collect(),
+        ItemKind::Str => pi(STR_ITEMS.into_iter(), at, hint).collect(),
+        ItemKind::StringT => pi(STR_ITEMS.into_iter().map(String::from), at, hint).collect(),
+        ItemKind::BoxStr => pi(STR_ITEMS.into_iter().map(Box::<str>::from), at, hint).collect(),
+        ItemKind::CowStr => pi(STR_ITEMS.into_iter().map(std::borrow::Cow::Borrowed), at, hint).collect(),
+        ItemKind::Lean => pi(STR_ITEMS.into_iter().map(LeanString::from), at, hint).collect(),
+    }
+}
+
+fn pred_panic(kind: u8, at: usize) -> impl FnMut(char) -> bool {
+    let mut n = 0usize;
+    move |c| {
+        n += 1;
+        if n == at {
+            panic!("predicate panics");
+        }
+        match kind {
+            0 => true,
+            1 => false,
+            2 => !c.is_ascii(),
+            _ => n % 2 == 1,
+        }
+    }
+}
+
+struct PanicDisplay {
+    pieces: &'static [&'static str],
+    after: usize,
+}
+impl std::fmt::Display for PanicDisplay {
+    fn fmt(&self, f: &mut std::fmt::Formatter<'_>) -> std::fmt::Result {
+        for (i, p) in self.pieces.iter().enumerate() {
+            if i == self.after {
+                panic!("Display panics");
+            }
+            f.write_str(p)?;
+        }
+        if self.after >= self.pieces.len() {
+            panic!("Display panics");
+        }
+        Ok(())
+    }
+}
+
+/// One C18 case on a fresh re-execution; `f` runs the callback-taking call on the target and
+/// on the model and returns (lean outcome, model outcome).
+fn panic_case(cx: &ProbeCtx, hist: &[OpId], slot: Option<usize>, name: &str, desc: String, run: impl FnOnce(&mut Pool) -> (Result<(), String>, Result<(), String>)) {
+    let prof = cx.prof;
+    cx.trace(hist, &desc);
+    let mut p = replay(prof, hist);
+    let pre = p.observe();
+    let live0 = shim::with(|s| s.live_blocks());
+    let (lean, model) = run(&mut p);
+    cx.stats.cases.fetch_add(1, Ordering::Relaxed);
+    cx.stats.executions.fetch_add(1, Ordering::Relaxed);
+    let tk = kind_str(slot.and_then(|s| pre[s].as_ref()));
+    let mut out = Vec::new();
+    let mut v = |oracle: &'static str, detail: String| out.push(Viol { prop: "C18", oracle, detail });
+    match (&lean, &model) {
+        (Err(a), Err(_)) => {
+            if a == ALLOC_MSG {
+                v("wrong-panic", format!("{desc}: panicked with the allocation message although nothing was refused"));
+            }
+        }
+        (Ok(()), Ok(())) => {}
+        (a, b) => v("panic-mismatch", format!("{desc}: LeanString {:?}, String {:?}", a.as_ref().err(), b.as_ref().err())),
+    }
+    cx.stats.class(format!("{name}/{tk}/{}", if lean.is_err() { "panicked" } else { "completed" }));
+    cx.stats.sample(|| format!("{:?} then {desc}", prof.render(hist)));
+    if let Some(t) = slot {
+        let actual = p.h(t).map(|h| h.as_bytes().to_vec());
+        let want = p.m[t].as_ref().map(|m| m.as_bytes().to_vec());
+        if actual != want {
+            v("text", format!("{desc}: after unwinding the target reads {:?}, a String holds {:?}", actual.map(|a| String::from_utf8_lossy(&a).into_owned()), p.m[t]));
+        }
+        if let Some(h) = p.h(t) {
+            if std::str::from_utf8(h.as_bytes()).is_err() {
+                v("utf8", format!("{desc}: target holds invalid UTF-8 after unwinding"));
+            }
+        }
+    } else {
+        let live1 = shim::with(|s| s.live_blocks());
+        if lean.is_err() && live1 != live0 {
+            v("leak", format!("{desc}: {} block(s) allocated by the call are still live after it unwound (no value exists)", live1 as i64 - live0 as i64));
+        }
+    }
+    drop(v);
+    others_unchanged(&pre, &p, slot, "C18", &desc, &mut out);
+    heap_checks(&p, "C18", &desc, &mut out);
+    close_check(&mut p, &format!("{desc}, then all handles dropped"), &mut out, "C18");
+    cx.report(hist, &out, name, tk, &desc);
+}
+
+pub fn panic_probe(cx: &ProbeCtx, hist: &[OpId]) {
+    let prof = cx.prof;
+    let p0 = replay(prof, hist);
+    let slots: Vec<(usize, usize)> = (0..prof.k).filter_map(|i| p0.m[i].as_ref().map(|m| (i, m.chars().count()))).collect();
+    let has_empty = p0.empty_slot().is_some();
+    drop(p0);
+    for &(i, nchars) in &slots {
+        // retain: predicate panics at its k-th call
+        for kind in 0..4u8 {
+            for at in 1..=nchars {
+                for try_form in [false, true] {
+                    let desc = format!("slot {i}: {}(predicate #{kind} panicking at call {at})", if try_form { "try_retain" } else { "retain" });
+                    panic_case(cx, hist, Some(i), "retain", desc, |p| {
+                        let h = p.s[i].h.as_mut().unwrap();
+                        let l = if try_form { quiet(|| h.try_retain(pred_panic(kind, at)).unwrap()) } else { quiet(|| h.retain(pred_panic(kind, at))) };
+                        let m = p.m[i].as_mut().unwrap();
+                        let r = quiet(|| m.retain(pred_panic(kind, at)));
+                        (l, r)
+                    });
+                }
+            }
+        }
+        // extend: next() panics at its k-th call
+        if p_len_ok(cx, hist, i) {
+            for kind in ITEM_KINDS {
+                for hint in [Hint::Honest, Hint::Zero] {
+                    for at in 1..=n_items(kind) + 1 {
+                        let desc = format!("slot {i}: extend({kind:?} items, {hint:?} size hint, next() panicking at call {at})");
+                        panic_case(cx, hist, Some(i), "extend", desc, |p| {
+                            let h = p.s[i].h.as_mut().unwrap();
+                            let l = quiet(|| lean_extend(h, kind, at, hint));
+                            let m = p.m[i].as_mut().unwrap();
+                            let r = quiet(|| model_extend(m, kind, at, hint));
+                            (l, r)
+                        });
+                    }
+                }
+            }
+        }
+    }
+    if has_empty || slots.is_empty() {
+        for kind in ITEM_KINDS {
+            for hint in [Hint::Honest, Hint::Zero] {
+                for at in 1..=n_items(kind) + 1 {
+                    let desc = format!("collect({kind:?} items, {hint:?} size hint, next() panicking at call {at})");
+                    panic_case(cx, hist, None, "collect", desc, |_p| {
+                        let l = quiet(|| drop(lean_collect(kind, at, hint)));
+                        (l, Err("iterator panics".into()))
+                    });
+                }
+            }
+        }
+        static PIECES: [&[&str]; 3] = [&["abc", "é"], &["0123456789", "abcdefgh", "€"], &["", "0123456789abcdefg", "x", "0123456789abcdefghijklmnopqrstuvwxyz"]];
+        for (pi_, pieces) in PIECES.iter().enumerate() {
+            for after in 0..=pieces.len() {
+                for try_form in [false, true] {
+                    let desc = format!("{}(Display #{pi_} panicking after {after} piece(s))", if try_form { "try_to_lean_string" } else { "to_lean_string" });
+                    panic_case(cx, hist, None, "to_lean_string", desc, |_p| {
+                        let d = PanicDisplay { pieces, after };
+                        let l = if try_form { quiet(|| drop(lean_string::ToLeanString::try_to_lean_string(&d))) } else { quiet(|| drop(lean_string::ToLeanString::to_lean_string(&d))) };
+                        (l, Err("Display panics".into()))
+                    });
+                }
+            }
+        }
+    }
+}
+
+fn p_len_ok(cx: &ProbeCtx, hist: &[OpId], i: usize) -> bool {
+    let p = replay(cx.prof, hist);
+    p.m[i].as_ref().is_some_and(|m| m.len() < LMAX)
+}
+
+// -------------------------------------------------------------------------------------
+// C06: size arguments
+
+pub fn size_values(len: usize, cap: usize) -> Vec<usize> {
+    let mut v: Vec<usize> = vec![0, 1, 2, INLINE - 1, INLINE, INLINE + 1, INLINE + 2];
+    for k in 3..usize::BITS {
+        let b = 1usize << k;
+        for d in -2i64..=2 {
+            v.push((b as i128 + d as i128) as usize);
+        }
+    }
+    let lim = 1usize << 56;
+    for d in -3i64..=2 {
+        v.push((lim as i128 + d as i128) as usize);
+    }
+    let im = isize::MAX as usize;
+    for d in -2i64..=2 {
+        v.push((im as i128 + d as i128) as usize);
+    }
+    for d in 0..=2 {
+        v.push(usize::MAX - d);
+    }
+    let base = v.clone();
+    for x in base {
+        v.push(x.wrapping_sub(len));
+        v.push(x.saturating_sub(len));
+    }
+    for x in [len, cap] {
+        v.push(x.saturating_sub(1));
+        v.push(x);
+        v.push(x + 1);
+    }
+    v.sort_unstable();
+    v.dedup();
+    v
+}
+
+#[derive(Clone, Copy, Debug, PartialEq, Eq)]
+pub enum SizeEntry {
+    TryReserve,
+    Reserve,
+    TryShrinkTo,
+    ShrinkTo,
+    ExtendHint(u8),
+}
+const SIZE_ENTRIES: [SizeEntry; 7] = [SizeEntry::TryReserve, SizeEntry::Reserve, SizeEntry::TryShrinkTo, SizeEntry::ShrinkTo, SizeEntry::ExtendHint(0), SizeEntry::ExtendHint(1), SizeEntry::ExtendHint(2)];
+
+pub const C06_GIANT: usize = 1 << 20;
+
+fn size_case(cx: &ProbeCtx, hist: &[OpId], i: usize, entry: SizeEntry, n: usize, follow: bool) {
+    let prof = cx.prof;
+    let mut p = replay(prof, hist);
+    shim::with(|s| s.giant = C06_GIANT);
+    let pre = p.observe();
+    let key0 = pool_key(&p);
+    let a = pre[i].clone().unwrap();
+    let desc = format!("slot {i} ({}, len {}, cap {}): {entry:?}({n})", kind_str(Some(&a)), a.len, a.cap);
+    cx.trace(hist, &desc);
+    let items: Vec<char> = match entry {
+        SizeEntry::ExtendHint(k) => ['x', 'é'].into_iter().take(k as usize).collect(),
+        _ => vec![],
+    };
+    let c0 = shim::with(|s| s.mark());
+    let h = p.s[i].h.as_mut().unwrap();
+    let r: Result<Result<(), ()>, String> = match entry {
+        SizeEntry::TryReserve => quiet(|| h.try_reserve(n).map_err(|_| ())),
+        SizeEntry::Reserve => quiet(|| h.reserve(n)).map(Ok),
+        SizeEntry::TryShrinkTo => quiet(|| h.try_shrink_to(n).map_err(|_| ())),
+        SizeEntry::ShrinkTo => quiet(|| h.shrink_to(n)).map(Ok),
+        SizeEntry::ExtendHint(_) => {
+            let it = HugeHint { it: items.clone().into_iter(), hint: n };
+            quiet(move || h.extend(it)).map(Ok)
+        }
+    };
+    let d = oracle::delta(c0, shim::with(|s| s.c));
+    cx.stats.cases.fetch_add(1, Ordering::Relaxed);
+    cx.stats.executions.fetch_add(1, Ordering::Relaxed);
+    let tk = kind_str(Some(&a));
+    let mut out = Vec::new();
+    let mut v = |oracle: &'static str, detail: String| out.push(Viol { prop: "C06", oracle, detail });
+    let b = p.h(i).map(observe).unwrap();
+    let is_try = matches!(entry, SizeEntry::TryReserve | SizeEntry::TryShrinkTo);
+    let class;
+    match &r {
+        Ok(Ok(())) => {
+            class = "ok";
+            match entry {
+                SizeEntry::TryReserve | SizeEntry::Reserve => {
+                    if a.len.checked_add(n).is_none() {
+                        v("wrap", format!("{desc}: succeeded although len + n overflows usize"));
+                    } else if b.cap < b.len + n {
+                        v("postcondition", format!("{desc}: Ok but capacity {} < len {} + n", b.cap, b.len));
+                    }
+                    if b.text != a.text {
+                        v("text", format!("{desc}: text changed"));
+                    }
+                    if b.kind == Kind::Static || (b.kind == Kind::Heap && b.rc != 1) {
+                        v("not-exclusive", format!("{desc}: Ok but the handle is {:?} with rc {}", b.kind, b.rc));
+                    }
+                }
+                SizeEntry::TryShrinkTo | SizeEntry::ShrinkTo => {
+                    let mut vv = |o: &'static str, dd: String| out.push(Viol { prop: "C06", oracle: o, detail: dd });
+                    oracle::shrink_post(&a, &b, n, &desc, &mut vv);
+                }
+                SizeEntry::ExtendHint(_) => {
+                    let mut want = a.text.clone();
+                    want.extend(items.iter().collect::<String>().as_bytes());
+                    if b.text != want {
+                        out.push(Viol { prop: "C06", oracle: "text", detail: format!("{desc}: target reads {:?}", String::from_utf8_lossy(&b.text)) });
+                    }
+                    p.m[i] = Some(String::from_utf8_lossy(&want).into_owned());
+                }
+            }
+        }
+        Ok(Err(())) => {
+            class = "reserve-error";
+            if !is_try {
+                v("wrong-report", format!("{desc}: unexpected Err"));
+            }
+            if pool_key(&p) != key0 {
+                v("changed-after-failure", format!("{desc}: returned ReserveError but the pool (texts, capacities, pointers, reference counts) is not what it was"));
+            }
+        }
+        Err(m) => {
+            class = "panic";
+            if is_try || m != ALLOC_MSG {
+                v("wrong-report", format!("{desc}: panicked with {m:?}"));
+            }
+            if let SizeEntry::ExtendHint(_) = entry {
+                // may stop between items
+                let mut acc = a.text.clone();
+                let mut ok = b.text == acc;
+                for c in &items {
+                    acc.extend(c.to_string().as_bytes());
+                    ok |= b.text == acc;
+                }
+                if !ok {
+                    out.push(Viol { prop: "C06", oracle: "changed-after-failure", detail: format!("{desc}: after the panic the target reads {:?}", String::from_utf8_lossy(&b.text)) });
+                }
+                p.m[i] = Some(String::from_utf8_lossy(&b.text).into_owned());
+            } else if pool_key(&p) != key0 {
+                out.push(Viol { prop: "C06", oracle: "changed-after-failure", detail: format!("{desc}: panicked but the pool (texts, capacities, pointers, reference counts) is not what it was") });
+            }
+        }
+    }
+    // never hand out less than is later written: every block the call obtained must hold the text
+    if d.refused > 0 && matches!(r, Ok(Ok(()))) && !matches!(entry, SizeEntry::ExtendHint(_)) && (matches!(entry, SizeEntry::TryReserve | SizeEntry::Reserve)) {
+        out.push(Viol { prop: "C06", oracle: "ok-after-refusal", detail: format!("{desc}: the allocator refused a request but the call reported success") });
+    }
+    cx.stats.class(format!("{entry:?}/{tk}/{class}").replace(|c: char| c.is_ascii_digit(), "#"));
+    cx.stats.sample(|| format!("{:?} then {desc} -> {class}", prof.render(hist)));
+    others_unchanged(&pre, &p, Some(i), "C06", &desc, &mut out);
+    heap_checks(&p, "C06", &desc, &mut out);
+    if follow && out.is_empty() {
+        // the string must still be fully usable
+        for op2 in [Op::Push(i as u8, 1), Op::Pop(i as u8), Op::Clone(i as u8), Op::ShrinkFit(i as u8)] {
+            if op_enabled(&p, op2, &prof.limits) {
+                let rec2 = oracle::step(&mut p, op2, Form::Plain);
+                let mut c = Vec::new();
+                oracle::c01(&rec2, &p, &mut c);
+                oracle::c03(&rec2, &p, &mut c);
+                for e in c {
+                    out.push(Viol { prop: "C06", oracle: "follow-up", detail: format!("after {desc}, {op2:?}: {}", e.detail) });
+                }
+            }
+        }
+    }
+    close_check(&mut p, &format!("{desc}, then all handles dropped"), &mut out, "C06");
+    let name = format!("{entry:?}").split('(').next().unwrap().to_lowercase();
+    cx.report(hist, &out, &name, tk, &desc);
+}
+
+pub fn size_probe(cx: &ProbeCtx, hist: &[OpId]) {
+    let prof = cx.prof;
+    let p0 = replay(prof, hist);
+    let slots: Vec<(usize, usize, usize)> = (0..prof.k).filter_map(|i| p0.h(i).map(|h| (i, h.len(), h.capacity()))).collect();
+    drop(p0);
+    for (i, len, cap) in slots {
+        for n in size_values(len, cap) {
+            for entry in SIZE_ENTRIES {
+                if matches!(entry, SizeEntry::ExtendHint(_)) && len >= LMAX {
+                    continue;
+                }
+                size_case(cx, hist, i, entry, n, n % 7 == 0);
+            }
+        }
+    }
+}
+
+/// State-independent size arguments: with_capacity / try_with_capacity / collect with a size hint.
+pub fn size_ctor_sweep(cx: &ProbeCtx) {
+    for n in size_values(0, INLINE) {
+        for which in 0..5u8 {
+            let hist: [OpId; 0] = [];
+            let mut p = replay(cx.prof, &hist);
+            shim::with(|s| s.giant = C06_GIANT);
+            let desc = format!("{}({n})", ["try_with_capacity", "with_capacity", "collect(hint, 0 items)", "collect(hint, 1 item)", "collect(hint, 2 items)"][which as usize]);
+            let items: Vec<char> = ['x', 'é'].into_iter().take(which.saturating_sub(2) as usize).collect();
+            let r: Result<Result<LeanString, ()>, String> = match which {
+                0 => quiet(|| LeanString::try_with_capacity(n).map_err(|_| ())),
+                1 => quiet(|| LeanString::with_capacity(n)).map(Ok),
+                _ => {
+                    let it = HugeHint { it: items.clone().into_iter(), hint: n };
+                    quiet(move || it.collect::<LeanString>()).map(Ok)
+                }
+            };
+            cx.stats.cases.fetch_add(1, Ordering::Relaxed);
+            cx.stats.executions.fetch_add(1, Ordering::Relaxed);
+            let mut out = Vec::new();
+            let class = match &r {
+                Ok(Ok(s)) => {
+                    if which < 2 && s.capacity() < n {
+                        out.push(Viol { prop: "C06", oracle: "postcondition", detail: format!("{desc}: Ok but capacity {}", s.capacity()) });
+                    }
+                    let want: String = if which < 2 { String::new() } else { items.iter().collect() };
+                    if s.as_str() != want {
+                        out.push(Viol { prop: "C06", oracle: "text", detail: format!("{desc}: value reads {:?}", s.as_str()) });
+                    }
+                    "ok"
+                }
+                Ok(Err(())) => {
+                    if which != 0 {
+                        out.push(Viol { prop: "C06", oracle: "wrong-report", detail: format!("{desc}: unexpected Err") });
+                    }
+                    "reserve-error"
+                }
+                Err(m) => {
+                    if which == 0 || m != ALLOC_MSG {
+                        out.push(Viol { prop: "C06", oracle: "wrong-report", detail: format!("{desc}: panicked with {m:?}") });
+                    }
+                    "panic"
+                }
+            };
+            cx.stats.class(format!("ctor{which}/{class}"));
+            if let Ok(Ok(s)) = r {
+                p.s[0].h = Some(s);
+                p.m[0] = Some(if which < 2 { String::new() } else { items.iter().collect() });
+                heap_checks(&p, "C06", &desc, &mut out);
+            }
+            close_check(&mut p, &format!("{desc}, then dropped"), &mut out, "C06");
+            cx.report(&hist, &out, "ctor", "none", &desc);
+        }
+    }
+}
+
+// -------------------------------------------------------------------------------------
+// C07: every byte index
+
+#[derive(Clone, Copy, Debug, PartialEq, Eq)]
+pub enum IdxOp {
+    Insert,
+    InsertStr,
+    InsertEmpty,
+    Remove,
+    Truncate,
+}
+const IDX_OPS: [IdxOp; 5] = [IdxOp::Insert, IdxOp::InsertStr, IdxOp::InsertEmpty, IdxOp::Remove, IdxOp::Truncate];
+
+fn lean_idx(h: &mut LeanString, op: IdxOp, idx: usize, try_form: bool) -> Result<Result<Out, ()>, String> {
+    match (op, try_form) {
+        (IdxOp::Insert, false) => quiet(|| h.insert(idx, 'é')).map(|_| Ok(Out::Unit)),
+        (IdxOp::Insert, true) => quiet(|| h.try_insert(idx, 'é')).map(|r| r.map(|_| Out::Unit).map_err(|_| ())),
+        (IdxOp::InsertStr, false) => quiet(|| h.insert_str(idx, "b€")).map(|_| Ok(Out::Unit)),
+        (IdxOp::InsertStr, true) => quiet(|| h.try_insert_str(idx, "b€")).map(|r| r.map(|_| Out::Unit).map_err(|_| ())),
+        (IdxOp::InsertEmpty, false) => quiet(|| h.insert_str(idx, "")).map(|_| Ok(Out::Unit)),
+        (IdxOp::InsertEmpty, true) => quiet(|| h.try_insert_str(idx, "")).map(|r| r.map(|_| Out::Unit).map_err(|_| ())),
+        (IdxOp::Remove, false) => quiet(|| h.remove(idx)).map(|c| Ok(Out::Char(c))),
+        (IdxOp::Remove, true) => quiet(|| h.try_remove(idx)).map(|r| r.map(Out::Char).map_err(|_| ())),
+        (IdxOp::Truncate, false) => quiet(|| h.truncate(idx)).map(|_| Ok(Out::Unit)),
+        (IdxOp::Truncate, true) => quiet(|| h.try_truncate(idx)).map(|r| r.map(|_| Out::Unit).map_err(|_| ())),
+    }
+}
+fn model_idx(m: &mut String, op: IdxOp, idx: usize) -> Result<Out, String> {
+    match op {
+        IdxOp::Insert => quiet(|| m.insert(idx, 'é')).map(|_| Out::Unit),
+        IdxOp::InsertStr => quiet(|| m.insert_str(idx, "b€")).map(|_| Out::Unit),
+        IdxOp::InsertEmpty => quiet(|| m.insert_str(idx, "")).map(|_| Out::Unit),
+        IdxOp::Remove => quiet(|| m.remove(idx)).map(Out::Char),
+        IdxOp::Truncate => quiet(|| m.truncate(idx)).map(|_| Out::Unit),
+    }
+}
+
+/// the oracle of one index case, shared by the state probe and the text sweep
+pub fn index_verdict(desc: &str, lean: &Result<Result<Out, ()>, String>, model: &Result<Out, String>, unchanged: bool, requests: u64, text_after: &[u8], model_after: &str, out: &mut Vec<Viol>) -> &'static str {
+    let mut v = |oracle: &'static str, detail: String| out.push(Viol { prop: "C07", oracle, detail });
+    let class = match (lean, model) {
+        (Err(msg), Err(_)) => {
+            if msg == ALLOC_MSG {
+                v("wrong-panic", format!("{desc}: panicked with the allocation message"));
+            }
+            if !unchanged {
+                v("effect-after-panic", format!("{desc}: the rejected call changed the pool (texts, capacities, pointers, reference counts or buffer bytes)"));
+            }
+            if requests != 0 {
+                v("allocates-before-panic", format!("{desc}: the rejected call issued {requests} allocator request(s)"));
+            }
+            "both-panic"
+        }
+        (Ok(Ok(a)), Ok(b)) => {
+            if a != b {
+                v("return-value", format!("{desc}: returned {a:?}, String returned {b:?}"));
+            }
+            if text_after != model_after.as_bytes() {
+                v("text", format!("{desc}: reads {:?}, String holds {:?}", String::from_utf8_lossy(text_after), model_after));
+            }
+            "both-accept"
+        }
+        (Err(msg), Ok(_)) => {
+            v("panics-but-string-accepts", format!("{desc}: panicked ({msg}) where String accepts the index"));
+            "mismatch"
+        }
+        (Ok(_), Err(_)) => {
+            v("accepts-but-string-panics", format!("{desc}: accepted an index for which String panics"));
+            "mismatch"
+        }
+        (Ok(Err(())), Ok(_)) => {
+            v("reserve-error", format!("{desc}: ReserveError without any refused request"));
+            "mismatch"
+        }
+    };
+    if std::str::from_utf8(text_after).is_err() {
+        v("utf8", format!("{desc}: invalid UTF-8 afterwards"));
+    }
+    class
+}
+
+pub fn index_probe(cx: &ProbeCtx, hist: &[OpId]) {
+    let prof = cx.prof;
+    let p0 = replay(prof, hist);
+    let slots: Vec<(usize, usize)> = (0..prof.k).filter_map(|i| p0.m[i].as_ref().map(|m| (i, m.len()))).collect();
+    drop(p0);
+    for (i, len) in slots {
+        for op in IDX_OPS {
+            for try_form in [false, true] {
+                for idx in 0..=len + 2 {
+                    let mut p = replay(prof, hist);
+                    let pre = p.observe();
+                    let key0 = pool_key(&p);
+                    let a = pre[i].as_ref().unwrap();
+                    let tk = kind_str(Some(a));
+                    let desc = format!("slot {i} ({tk}, {:?}): {}{op:?}({idx})", String::from_utf8_lossy(&a.text), if try_form { "try_" } else { "" });
+                    cx.trace(hist, &desc);
+                    let c0 = shim::with(|s| s.mark());
+                    let lean = lean_idx(p.s[i].h.as_mut().unwrap(), op, idx, try_form);
+                    let d = oracle::delta(c0, shim::with(|s| s.c));
+                    let model = model_idx(p.m[i].as_mut().unwrap(), op, idx);
+                    cx.stats.cases.fetch_add(1, Ordering::Relaxed);
+                    cx.stats.executions.fetch_add(1, Ordering::Relaxed);
+                    let mut out = Vec::new();
+                    let unchanged = pool_key(&p) == key0;
+                    let after = p.h(i).unwrap().as_bytes().to_vec();
+                    let class = index_verdict(&desc, &lean, &model, unchanged, d.requests, &after, p.m[i].as_ref().unwrap(), &mut out);
+                    cx.stats.class(format!("{op:?}/{tk}/{class}"));
+                    cx.stats.sample(|| format!("{:?} then {desc} -> {class}", prof.render(hist)));
+                    others_unchanged(&pre, &p, Some(i), "C07", &desc, &mut out);
+                    heap_checks(&p, "C07", &desc, &mut out);
+                    close_check(&mut p, &format!("{desc}, then all handles dropped"), &mut out, "C07");
+                    cx.report(hist, &out, &format!("{op:?}").to_lowercase(), tk, &desc);
+                }
+            }
+        }
+    }
+}
+
+// -------------------------------------------------------------------------------------
+// C13: every m
+
+pub fn shrink_probe(cx: &ProbeCtx, hist: &[OpId]) {
+    let prof = cx.prof;
+    let p0 = replay(prof, hist);
+    let slots: Vec<(usize, usize, usize)> = (0..prof.k).filter_map(|i| p0.h(i).map(|h| (i, h.len(), h.capacity()))).collect();
+    drop(p0);
+    for (i, len, cap) in slots {
+        let mut ms: Vec<Option<usize>> = vec![None];
+        ms.extend((0..=cap + 2).map(Some));
+        ms.extend(size_values(len, cap).into_iter().filter(|&m| m > cap + 2).map(Some));
+        for m in ms {
+            for try_form in [false, true] {
+                let mut p = replay(prof, hist);
+                let pre = p.observe();
+                let a = pre[i].clone().unwrap();
+                let tk = kind_str(Some(&a));
+                let desc = match m {
+                    None => format!("slot {i} ({tk}, len {}, cap {}): {}shrink_to_fit()", a.len, a.cap, if try_form { "try_" } else { "" }),
+                    Some(m) => format!("slot {i} ({tk}, len {}, cap {}): {}shrink_to({m})", a.len, a.cap, if try_form { "try_" } else { "" }),
+                };
+                cx.trace(hist, &desc);
+                let h = p.s[i].h.as_mut().unwrap();
+                let r: Result<Result<(), ()>, String> = match (m, try_form) {
+                    (None, false) => quiet(|| h.shrink_to_fit()).map(Ok),
+                    (None, true) => quiet(|| h.try_shrink_to_fit().map_err(|_| ())),
+                    (Some(m), false) => quiet(|| h.shrink_to(m)).map(Ok),
+                    (Some(m), true) => quiet(|| h.try_shrink_to(m).map_err(|_| ())),
+                };
+                cx.stats.cases.fetch_add(1, Ordering::Relaxed);
+                cx.stats.executions.fetch_add(1, Ordering::Relaxed);
+                let mut out = Vec::new();
+                let b = p.h(i).map(observe).unwrap();
+                match &r {
+                    Ok(Ok(())) => {
+                        let mut vv = |o: &'static str, dd: String| out.push(Viol { prop: "C13", oracle: o, detail: dd });
+                        oracle::shrink_post(&a, &b, m.unwrap_or(0), &desc, &mut vv);
+                    }
+                    other => out.push(Viol { prop: "C13", oracle: "fails", detail: format!("{desc}: did not complete: {other:?}") }),
+                }
+                cx.stats.class(format!("{tk}/{}", if b.kind != a.kind { "moved-kind" } else if b.cap != a.cap { "resized" } else { "unchanged" }));
+                cx.stats.sample(|| format!("{:?} then {desc}: cap {} -> {}", prof.render(hist), a.cap, b.cap));
+                others_unchanged(&pre, &p, Some(i), "C13", &desc, &mut out);
+                heap_checks(&p, "C13", &desc, &mut out);
+                close_check(&mut p, &format!("{desc}, then all handles dropped"), &mut out, "C13");
+                cx.report(hist, &out, if m.is_none() { "shrink_to_fit" } else { "shrink_to" }, tk, &desc);
+            }
+        }
+    }
+}
+
+pub fn idx_name(op: usize) -> &'static str {
+    ["insert", "insert_str", "insert_empty", "remove", "truncate"][op]
+}
+pub fn idx_pair(h: &mut LeanString, m: &mut String, op: usize, idx: usize, try_form: bool) -> (Result<Result<Out, ()>, String>, Result<Out, String>) {
+    (lean_idx(h, IDX_OPS[op], idx, try_form), model_idx(m, IDX_OPS[op], idx))
 }
